@@ -79,6 +79,12 @@ check("C20", "lambda", "exploration",
       "exhaustive enumeration of macro invocation shapes, compiled and executed",
       "DESIGN.md §4 C20")
 
+check("C17", "c17", "model_checking",
+      "Two passes over the same 2-3 thread harness (each thread creates k nodes through from_item/insert_at and merges, splits, removes and collects on a treap it owns; main draws first). loom pass: the treap crate's own source, copied at build time with thread_local!/std::sync/std::thread/statics rerouted to loom, explored under DPOR with preemption bound 2 (quick) / 3 and 3 threads (thorough); every unserialised outcome (per-thread priority streams + treap results) must be among the outcomes of the same bodies run with every operation under one lock, and treap results must equal the solo run. Miri pass: the same bodies free-running on real threads against the real crate; its vector-clock detector reports unsynchronised accesses (static mut, raw cells) that the cooperative scheduler cannot see.",
+      "Trusted: loom's model of the rerouted primitives; Miri's race detector (one free-running execution per configuration, schedule-independent for unordered access pairs). State shared through something the rewrite does not know is detected (first draw differs between executions) and ends in exit 2, not a verdict.",
+      "stateless schedule exploration of the real code under loom (DPOR, preemption-bounded) + free-running Miri race detection",
+      "DESIGN.md §4 C17")
+
 PENDING = {
 }
 
